@@ -64,6 +64,7 @@ func (m *Machine) fresh(e *Explorer) *interpreter {
 	e.builders = map[*value]string{}
 	e.env = map[string]value{}
 	e.onces = map[*value]bool{}
+	e.syncMaps = nil
 	e.interp = i
 	return i
 }
@@ -135,7 +136,7 @@ func (m *Machine) Explore(root *ssa.Package, fn *ssa.Function, args []value, job
 			defer func() {
 				if r := recover(); r != nil {
 					stack := tailStack(6)
-					CallStack = nil
+					CallStack, panicStack = nil, nil
 					switch p := r.(type) {
 					case pathAbort:
 						if strings.HasPrefix(p.why, "engine:") || strings.HasPrefix(p.why, "unsupported") {
@@ -221,6 +222,18 @@ func StringsOf(v value) []string {
 }
 
 func tailStack(n int) []string {
+	if panicStack != nil {
+		cs := panicStack
+		k := len(cs)
+		if k > n {
+			k = n
+		}
+		out := make([]string, 0, k)
+		for j := len(cs) - 1; j >= len(cs)-k; j-- {
+			out = append(out, cs[j])
+		}
+		return out
+	}
 	k := len(CallStack)
 	if k > n {
 		k = n
